@@ -238,7 +238,7 @@ func (ex *Exec) explore(st *State, rel *smt.Term, c *cont, first bool, spawned [
 		}
 		ex.Instrs++
 		fr := f.asFrame()
-		if op := blockingOp(instr); op != "" && !first {
+		if op := blockingOp(instr); op != "" && !first && !(op == "send" && ex.sendNeverBlocks(st, fr, instr.(*ssa.Send))) {
 			*out = append(*out, segResult{st: st, rel: rel, c: c, spawned: spawned})
 			return
 		}
@@ -902,4 +902,15 @@ func (ex *Exec) syncWrite(st *State, p Value, kind string, f func(old *smt.Term)
 		st.heap[id] = f(st.heap[id].(*smt.Term))
 		return nil
 	})
+}
+
+// sendNeverBlocks: the channel is a large-capacity log (not a ring buffer of a concurrent run): sends to it are
+// not scheduling points.
+func (ex *Exec) sendNeverBlocks(st *State, fr *Frame, in *ssa.Send) bool {
+	cv, ok := ex.val(fr, in.Chan).(*ChanV)
+	if !ok {
+		return false
+	}
+	cc, ok := ex.get(st, cv.Obj).(*ChanC)
+	return ok && !cc.Ring && cc.Cap > 16
 }
